@@ -61,6 +61,10 @@ def big_histories(th):
     for n in ((34000000, 40 << 20, 68000000, 136000000, 272000000) + (((1 << 29) + 5, 1 << 30) if th else ())):
         # (slices only: the sink entry points append byte by byte, each with a full re-sum -- quadratic)
         progs.append({"fam": "sdt", "big": [{"via": "append_slice", "n": n, "b": 255}]})
+    # pushes through the sink interface that carry the table's length across 2^16 and 2^24 (several byte carries at once)
+    progs.append({"fam": "sdt", "big": [{"via": "append_slice", "n": 65536 - 36 - 100, "b": 3}, {"via": "sink_vec", "n": 300, "b": 200}]})
+    progs.append({"fam": "sdt", "big": [{"via": "append_slice", "n": 65536 - 36 - 1, "b": 255}, {"via": "sink_vec", "n": 2, "b": 255}, {"via": "append_slice", "n": 65536, "b": 1}]})
+    progs.append({"fam": "sdt", "big": [{"via": "append_slice", "n": (1 << 24) - 36 - 20, "b": 77}, {"via": "sink_vec", "n": 40, "b": 78}]})
     progs.append({"fam": "sdt", "big": [{"via": "append_slice", "n": 20000000, "b": 255}, {"via": "sink_vec", "n": 2000, "b": 254},
                                         {"via": "append_slice", "n": 3, "b": 1}, {"via": "append_slice", "n": 70000000, "b": 128}]})
     return progs
